@@ -198,6 +198,7 @@ def execute(plan):
 
     try:
         conn_s = mg.fresh_conn(model)
+        mg.enable_query(conn_s)     # stub query engine (see modelgen)
         opgen.register_echo(conn_s, model)
         server = wbemserver.SimWBEMServer(conn_s)
         net = wire.Net(server).install()
